@@ -54,6 +54,16 @@ Theorem C10_env_empty_list_no_panic_refuted : exists b, env_empty_list_step fals
 Proof. exact env_empty_list_pinned_refuted. Qed.
 Print Assumptions C10_env_empty_list_no_panic_refuted.
 
+(* environment loader, a variable that only extends the name of a parameter with its own UnmarshalEnv:
+   no nil receiver after the fix; before, every optional such parameter panicked *)
+Theorem C10_env_subkey_no_panic : forall b, env_subkey_step true b <> EnvPanic.
+Proof. exact env_subkey_no_panic. Qed.
+Print Assumptions C10_env_subkey_no_panic.
+
+Theorem C10_env_subkey_no_panic_refuted : exists b, env_subkey_step false b = EnvPanic.
+Proof. exact env_subkey_pinned_refuted. Qed.
+Print Assumptions C10_env_subkey_no_panic_refuted.
+
 (* the test `x > 0 && x & (x-1) == 0` of Conf.Validate is exactly "x is a power of two" (all of Z) *)
 Theorem C10_pow2_test_sound : forall x, 0 < x -> Z.land x (x - 1) = 0 -> exists k, 0 <= k /\ x = 2 ^ k.
 Proof. exact land_pred_pow2. Qed.
@@ -89,7 +99,8 @@ Theorem C10_documented_meaning : forall g, documented_b g = true ->
     (p_regex p = true -> p_source p <> SPublisher -> p_source p <> SRedirect -> p_on_demand p = true) /\
     (p_on_demand p = true -> p_source p <> SPublisher) /\
     (p_source p = SRpi -> p_secondary p = false -> (primaries_with (p_cam p) (g_paths g) <= 1)%nat) /\
-    (p_source p = SRpi -> p_secondary p = true -> (1 <= primaries_with (p_cam p) (g_paths g))%nat).
+    (p_source p = SRpi -> p_secondary p = true -> (1 <= primaries_with (p_cam p) (g_paths g))%nat) /\
+    (forall t, In t (p_tracks p) -> track_ok t = true).
 Proof. exact documented_meaning. Qed.
 Print Assumptions C10_documented_meaning.
 
@@ -101,7 +112,7 @@ Definition ex_path (name : list Z) (s : src) (od : bool) (cam : Z) (sec : bool) 
      p_srt_pub := 0; p_srt_read := 12; p_redirect := false; p_redirect_ok := true; p_cam := cam;
      p_secondary := sec; p_rpi_ok := true; p_other_ok := true; p_aa := false; p_aa_src_ok := false;
      p_abs_ts := false; p_run_init := false; p_run_demand := false; p_record_path := ex_rp;
-     p_seg := 3600000000000; p_del := 86400000000000 |}.
+     p_seg := 3600000000000; p_del := 86400000000000; p_tracks := [(0, 0, 0); (1, 48000, 2)] |}.
 Definition ex_conf (wqs : Z) (od : bool) (cam2 : Z) : gconf :=
   {| g_read_to := 10000000000; g_write_to := 10000000000; g_wqs := 3; g_read_buffer_count := Some wqs;
      g_udp := 1452; g_playback := true; g_other_ok := true;
